@@ -1,2 +1,74 @@
-(* C04 -- statement file *)
-From SV Require Import Msg.Decode.
+(* C04 -- the decoder accepts every valid BER form of a message, not only its own. *)
+From Coq Require Import ZArith NArith List.
+From Coq.Strings Require Import Byte.
+From SV Require Import Base.Bytes Base.Py Gen.Generated Asn1.Model Asn1.TlvProofs Asn1.Lenient
+  Msg.Types Msg.Encode Msg.Decode Msg.RoundTrip Msg.Peer Msg.Lenient.
+Import ListNotations.
+Local Open Scope N_scope.
+
+(* The TLV layer: whatever valid definite length octets precede a content -- short form, or long form
+   with any number (1..126) of length octets, leading zeros included -- the header reader returns the
+   same tag and length and consumes exactly identifier + length octets. *)
+Theorem C04_any_length_form :
+  forall t lo len rest, wf_tag t -> valid_len lo len ->
+  read_header (pack_identifier (t_cls t) (t_cons t) (t_num t) ++ lo ++ rest)
+  = Ok (mkHdr t (ident_octets t + nlen lo) len).
+Proof. exact header_any_length. Qed.
+
+(* Whole messages.  [penc_msg lf tb explicit] (Msg/Peer.v) is a peer's encoder: [lf] chooses the length
+   octets of every TLV node from the node's content (any valid form; different nodes may use different
+   forms), [tb] is the octet written for TRUE, [explicit] says whether DEFAULT FALSE components
+   (criticality, dnAttributes) are written out as an explicit FALSE.  For every such peer, every message
+   of every operation, filters of any depth within the budget, any controls, and any octets following:
+   the decoder consumes exactly the message and returns the value it returns for the library's own
+   encoding (the only field that can differ is the raw value octets a paged-results control exposes,
+   which are "as received"). *)
+Theorem C04_peer_encodings_decode_alike :
+  forall lf tb explicit d m rest rest',
+  (forall c, fits c -> valid_len (lf c) (nlen c)) -> tb <> x00 ->
+  pwf_msg lf tb explicit d m -> wf_msg d m ->
+  exists v v',
+    unpack_message d (penc_msg lf tb explicit m ++ rest) = Ok (v, rest) /\
+    unpack_message d (enc_msg m ++ rest') = Ok (v', rest') /\
+    erase_raw_msg v = erase_raw_msg v' /\ erase_raw_msg v = erase_raw_msg m.
+Proof. exact peer_encoding_decodes_alike. Qed.
+
+Theorem C04_peer_round_trip :
+  forall lf tb explicit, (forall c, fits c -> valid_len (lf c) (nlen c)) -> tb <> x00 ->
+  forall d m rest, pwf_msg lf tb explicit d m ->
+  unpack_message d (penc_msg lf tb explicit m ++ rest) = Ok (pnorm_msg lf m, rest).
+Proof. exact msg_rt. Qed.
+
+(* two length styles that satisfy the hypothesis: the library's own minimal lengths, and the fixed
+   four-octet lengths Active Directory writes *)
+Theorem C04_minimal_lengths_are_valid : forall n, n < max_len -> valid_len (pack_length n) n.
+Proof. exact canonical_length_valid. Qed.
+Theorem C04_four_octet_lengths_are_valid : forall d, nlen d < max_len -> valid_len (lf_four d) (nlen d).
+Proof. exact lf_four_valid. Qed.
+
+(* non-vacuity: an Active-Directory-style peer (four-octet lengths, TRUE = 01, explicit FALSE) *)
+Example C04_example :
+  let m := mkMsg 5 (SearchRequest [x64] 2 0 0 0 true
+                      (FAnd [FExt None (Some [x61]) [x62] false; FSub [x63] None [[x64]] None]) [])
+                 [CGeneric [x31; x2e; x32] false None; CPaged true 10 [] None] in
+  pwf_msg lf_four x01 true 5 m /\
+  unpack_message 5 (penc_msg lf_four x01 true m) = Ok (pnorm_msg lf_four m, []) /\
+  penc_msg lf_four x01 true m <> enc_msg m.
+Proof.
+  cbv zeta. split; [|split].
+  - split; [|split].
+    + cbn. repeat split; try reflexivity; repeat constructor.
+    + repeat constructor; vm_compute; reflexivity.
+    + vm_compute. reflexivity.
+  - vm_compute. reflexivity.
+  - vm_compute. discriminate.
+Qed.
+
+(* Not covered by these theorems (checked on the implementation and against the extracted model only):
+   unrecognised trailing elements after the defined components of a sequence. *)
+
+Print Assumptions C04_any_length_form.
+Print Assumptions C04_peer_encodings_decode_alike.
+Print Assumptions C04_peer_round_trip.
+Print Assumptions C04_minimal_lengths_are_valid.
+Print Assumptions C04_four_octet_lengths_are_valid.
